@@ -11,7 +11,7 @@ pub fn prop() -> Prop {
     Prop {
         id: "C02",
         level: "exploration",
-        rule: "proptest tapes decoding to drawables as in C01 plus dotted strokes (styled primitives: any stroke width 0..=12 with a tail to 40 and alignment; polylines; images and nested sub-images; text with a random built-in font, colours, decorations, 4 baselines, 3 alignments, line heights in percent and pixels, multi-line strings with empty lines and unmapped characters), and a complete enumeration of every built-in font x a fixed style matrix (background, underline, strikethrough on/off x 4 baselines x 3 alignments = 96 combinations) with a three-line string. Oracle (validity predicate): every point recorded by a native-fill target that never clips lies inside bounding_box(); if the style is_transparent() nothing is recorded. Non-trivial: >= 1 pixel drawn and the box is non-empty; for text additionally a non-space glyph or a decoration.",
+        rule: "proptest tapes decoding to drawables as in C01 plus dotted strokes (styled primitives: any stroke width 0..=12 with a tail to 40 and alignment; polylines; images and nested sub-images; text with a random built-in font, colours, decorations, 4 baselines, 3 alignments, line heights in percent and pixels, multi-line strings with empty lines and unmapped characters), styled primitives of 100..=1024 px and of 1025..=3000 px (strokes to 200, all eight kinds) judged by the painted extent, and a complete enumeration of every built-in font x a fixed style matrix (background, underline, strikethrough on/off x 4 baselines x 3 alignments = 96 combinations) with a three-line string. Oracle (validity predicate): every point recorded by a native-fill target that never clips lies inside bounding_box(); if the style is_transparent() nothing is recorded. Non-trivial: >= 1 pixel drawn and the box is non-empty; for text additionally a non-space glyph or a decoration.",
         assumptions: vec![
             "tightness of the bounding box is not asserted, only containment (the Dimensions contract)",
             "the font table is extracted from /repo/src/mono_font/generated at build time",
